@@ -455,6 +455,8 @@ impl DebugSession {
         message: Option<String>,
         body: Option<Value>,
     ) -> anyhow::Result<()> {
+        #[cfg(feature = "verif")]
+        crate::verif::sched::point("session:pre_seq");
         let rsp = DapResponse {
             seq: self.next_seq(),
             r#type: "response",
@@ -466,6 +468,8 @@ impl DebugSession {
         };
         let value = serde_json::to_value(rsp)?;
 
+        #[cfg(feature = "verif")]
+        crate::verif::sched::point("session:pre_lock");
         let mut lock = self.io.lock().unwrap();
         lock.write_message(&value)
     }
@@ -480,7 +484,11 @@ impl DebugSession {
     }
 
     fn send_event_raw(&mut self, name: &'static str, body: Option<Value>) -> anyhow::Result<()> {
+        #[cfg(feature = "verif")]
+        crate::verif::sched::point("session:pre_seq");
         let seq = self.next_seq();
+        #[cfg(feature = "verif")]
+        crate::verif::sched::point("session:pre_lock");
         let mut lock = self.io.lock().unwrap();
 
         protocol::send_event(seq, &mut *lock, name, body)
@@ -540,11 +548,17 @@ impl DebugSession {
             let mut buf = String::new();
             loop {
                 buf.clear();
+                #[cfg(feature = "verif")]
+                crate::verif::sched::point("fwd_out:pre_read");
                 match reader.read_line(&mut buf) {
                     Ok(0) => break,
                     Ok(_) => {
+                        #[cfg(feature = "verif")]
+                        crate::verif::sched::point("fwd_out:pre_seq");
                         let s = seq.fetch_add(1, std::sync::atomic::Ordering::Relaxed);
 
+                        #[cfg(feature = "verif")]
+                        crate::verif::sched::point("fwd_out:pre_lock");
                         {
                             let mut lock = io.lock().unwrap();
                             // TODO log it somehow
@@ -559,6 +573,8 @@ impl DebugSession {
                     Err(_) => break,
                 }
             }
+            #[cfg(feature = "verif")]
+            crate::verif::sched::point("fwd_out:exit");
         });
 
         let io = self.io.clone();
@@ -569,11 +585,17 @@ impl DebugSession {
             let mut buf = String::new();
             loop {
                 buf.clear();
+                #[cfg(feature = "verif")]
+                crate::verif::sched::point("fwd_err:pre_read");
                 match reader.read_line(&mut buf) {
                     Ok(0) => break,
                     Ok(_) => {
+                        #[cfg(feature = "verif")]
+                        crate::verif::sched::point("fwd_err:pre_seq");
                         let s = seq.fetch_add(1, std::sync::atomic::Ordering::Relaxed);
 
+                        #[cfg(feature = "verif")]
+                        crate::verif::sched::point("fwd_err:pre_lock");
                         {
                             let mut lock = io.lock().unwrap();
                             // TODO log it somehow
@@ -588,7 +610,19 @@ impl DebugSession {
                     Err(_) => break,
                 }
             }
+            #[cfg(feature = "verif")]
+            crate::verif::sched::point("fwd_err:exit");
         });
+    }
+
+    /// Verification harness entry: start the output forwarders over harness-supplied pipes.
+    #[cfg(feature = "verif")]
+    pub fn verif_start_output_forwarding(
+        &self,
+        stdout_reader: os_pipe::PipeReader,
+        stderr_reader: os_pipe::PipeReader,
+    ) {
+        self.start_output_forwarding(stdout_reader, stderr_reader)
     }
 
     fn decode_frame_id(frame_id: i64) -> (i64, u32) {
